@@ -278,6 +278,29 @@ func ReadPatchString(s string) (Diff, error) {
 	}
 }
 
+// sameArray reports whether two JSON Pointers address elements of the
+// same array (they differ in the last token only).
+func sameArray(p1, p2 string) bool {
+	return p1[:strings.LastIndex(p1, "/")+1] == p2[:strings.LastIndex(p2, "/")+1]
+}
+
+// countRemovePairs counts the test/remove (or test/replace) pairs on one path that start a
+// list of ops. The element a context test after a change refers to is
+// that many positions behind the change.
+func countRemovePairs(patch []patchElement) int {
+	if len(patch) == 0 {
+		return 0
+	}
+	path := patch[0].Path
+	n := 0
+	for len(patch) >= 2 && patch[0].Op == "test" && (patch[1].Op == "remove" || patch[1].Op == "replace") &&
+		patch[0].Path == path && patch[1].Path == path {
+		n++
+		patch = patch[2:]
+	}
+	return n
+}
+
 // hasContextValues reports whether a diff element read from a JSON
 // Patch carries its own context tests. Such an element starts a new
 // hunk: folding it into the previous one would drop its tests.
@@ -401,6 +424,11 @@ func setPatchDiffElementContext(patch []patchElement, d *DiffElement) ([]patchEl
 	switch {
 	case (patch[2].Op == "test" || patch[2].Op == "add") && thirdIndex <= secondIndex:
 		// Before and after context.
+		removes := countRemovePairs(patch[2:])
+		if !sameArray(patch[0].Path, patch[2].Path) || !sameArray(patch[1].Path, patch[2].Path) ||
+			int(firstIndex) != int(thirdIndex)-1 || int(secondIndex) != int(thirdIndex)+removes {
+			return nil, fmt.Errorf("JSON Patch context tests %q and %q are not adjacent to the change at %q", patch[0].Path, patch[1].Path, patch[2].Path)
+		}
 		before, err := NewJsonNode(patch[0].Value)
 		if err != nil {
 			return nil, err
@@ -414,6 +442,9 @@ func setPatchDiffElementContext(patch []patchElement, d *DiffElement) ([]patchEl
 		return patch[2:], nil
 	case patch[1].Op == "test" && (patch[2].Op == "replace" || patch[2].Op == "remove") && firstIndex > secondIndex:
 		// After context with replace / remove.
+		if !sameArray(patch[0].Path, patch[1].Path) || int(firstIndex) != int(secondIndex)+countRemovePairs(patch[1:]) {
+			return nil, fmt.Errorf("JSON Patch context test %q is not adjacent to the change at %q", patch[0].Path, patch[1].Path)
+		}
 		d.Before = []JsonNode{voidNode{}}
 		after, err := NewJsonNode(patch[0].Value)
 		if err != nil {
@@ -423,6 +454,9 @@ func setPatchDiffElementContext(patch []patchElement, d *DiffElement) ([]patchEl
 		return patch[1:], nil
 	case patch[1].Op == "test" && (patch[2].Op == "replace" || patch[2].Op == "remove") && firstIndex < secondIndex:
 		// Before context with replace / remove.
+		if !sameArray(patch[0].Path, patch[1].Path) || int(firstIndex) != int(secondIndex)-1 {
+			return nil, fmt.Errorf("JSON Patch context test %q is not adjacent to the change at %q", patch[0].Path, patch[1].Path)
+		}
 		before, err := NewJsonNode(patch[0].Value)
 		if err != nil {
 			return nil, err
